@@ -120,26 +120,59 @@ def parse_fired(rc, out, t0):
     return r
 
 
-def detect_scratch(mdir, ids, jobs=4, tier="quick"):
-    """Like detect, but never touches /repo's working tree: a scratch worktree of /repo gets the patch,
-    a scratch copy of the harness is pointed at it, the checks write under a scratch output dir.
-    Everything is removed afterwards. Used to evaluate many seeded changes in parallel."""
-    mdir = os.path.abspath(mdir)
-    name = os.path.basename(mdir.rstrip("/"))
-    base = "/tmp/sd-%s-%d" % (name, os.getpid())
-    wt, hz, outd = base + "-wt", base + "-h", base + "-o"
-    rc, out = sh(["git", "-C", "/repo", "worktree", "add", "-q", "--detach", wt, "HEAD"])
+import queue
+import threading
+
+SLOTS = queue.Queue()
+_slots_made = []
+_slot_lock = threading.Lock()
+
+
+def _get_slot():
+    """A scratch slot = /tmp/sdslot-<pid>-<k>/{wt (worktree of /repo), v (copy of the committed
+    machinery)}; slots are reused between changes so that cargo only rebuilds ppp and the monitor."""
+    try:
+        return SLOTS.get_nowait()
+    except queue.Empty:
+        pass
+    with _slot_lock:
+        k = len(_slots_made)
+        base = "/tmp/sdslot-%d-%d" % (os.getpid(), k)
+        _slots_made.append(base)
+    os.makedirs(base, exist_ok=True)
+    rc, out = sh(["git", "-C", "/repo", "worktree", "add", "-q", "--detach", base + "/wt", "HEAD"])
     if rc != 0:
         print(out)
         return None
+    return base
+
+
+def cleanup_slots():
+    for base in _slots_made:
+        sh(["git", "-C", "/repo", "worktree", "remove", "--force", base + "/wt"])
+        sh(["rm", "-rf", base])
+    sh(["git", "-C", "/repo", "worktree", "prune"])
+
+
+def detect_scratch(mdir, ids, jobs=4, tier="quick"):
+    """Like detect, but never touches /repo's working tree: a scratch worktree of /repo gets the patch,
+    a scratch copy of the committed machinery (git archive of /verif HEAD, so edits in progress do
+    not leak in) is pointed at it, results go to the scratch copy. Used to evaluate many seeded
+    changes in parallel; call cleanup_slots() at the end."""
+    mdir = os.path.abspath(mdir)
+    base = _get_slot()
+    if base is None:
+        return None
+    wt, hz = base + "/wt", base + "/v"
     fired = {}
     try:
+        sh(["git", "checkout", "-q", "--detach", "HEAD"], cwd=wt)
+        sh(["git", "checkout", "--", "."], cwd=wt)
+        sh(["git", "clean", "-fdq", "-e", "target"], cwd=wt)
         rc, out = sh(["git", "apply", os.path.join(mdir, "patch.diff")], cwd=wt)
         if rc != 0:
             print("patch does not apply:\n" + out)
             return None
-        # the machinery as committed (git archive of /verif HEAD), so that edits in progress in the
-        # working tree do not leak into an evaluation that is running in the background
         os.makedirs(hz, exist_ok=True)
         rc, out = sh(["bash", "-c", "git -C %s archive HEAD check harness known_findings.json | tar -x -C %s" % (VERIF, hz)])
         if rc != 0:
@@ -150,6 +183,7 @@ def detect_scratch(mdir, ids, jobs=4, tier="quick"):
             t = f.read()
         with open(ct, "w") as f:
             f.write(t.replace('path = "/repo"', 'path = "%s"' % wt))
+        sh(["rm", "-rf", os.path.join(hz, "evidence"), os.path.join(hz, "replays")])
         env = dict(ENV, VERIF_JOBS=str(jobs))
         env.pop("VERIF_HARNESS", None)
         env.pop("VERIF_OUT", None)
@@ -158,8 +192,8 @@ def detect_scratch(mdir, ids, jobs=4, tier="quick"):
             rc, out = sh([os.path.join(hz, "check"), pid, "--tier", tier], cwd=hz, env=env)
             fired[pid] = parse_fired(rc, out, t0)
     finally:
-        sh(["git", "-C", "/repo", "worktree", "remove", "--force", wt])
-        sh(["rm", "-rf", hz, outd, wt])
+        sh(["git", "checkout", "--", "."], cwd=wt)
+        SLOTS.put(base)
     return fired
 
 
@@ -247,11 +281,13 @@ def main():
                 if r["exit"] != 1:
                     missed.append(d)
         print("missed:", " ".join(missed))
+        cleanup_slots()
         sys.exit(0)
     if cmd in ("detect", "detect-scratch"):
         mdir = sys.argv[2]
         ids = sys.argv[3:] or IDS
         fired = detect(mdir, ids) if cmd == "detect" else detect_scratch(mdir, ids)
+        cleanup_slots()
         if fired is None:
             sys.exit(2)
         meta = load_meta(mdir)
@@ -303,6 +339,7 @@ def main():
                 print(d, rows[d], flush=True)
                 with open(os.path.join(root, "MATRIX.json"), "w") as f:
                     json.dump(rows, f, indent=1)
+        cleanup_slots()
         sys.exit(0)
     print(__doc__)
     sys.exit(2)
